@@ -160,6 +160,8 @@ fn to_tokens_integers<T: RangeNumber>(
 
     quote! {
         {
+            // the closure takes its own copy of the count: another range or `{{ count }}` next to this one uses it too.
+            let #count_key = core::clone::Clone::clone(&#count_key);
             #captured_values
             move || #match_statement
         }
@@ -205,6 +207,8 @@ fn to_tokens_floats<T: RangeNumber>(
 
     quote! {
         {
+            // the closure takes its own copy of the count: another range or `{{ count }}` next to this one uses it too.
+            let #count_key = core::clone::Clone::clone(&#count_key);
             #captured_values
             move || {
                 let plural_count = #count_key();
